@@ -194,6 +194,16 @@ class Engine:
     def streq(self, a, b):
         if a.c is not None and b.c is not None: return a.c == b.c
         if a.c is None and b.c is None and a.t.eq(b.t): return True
+        # a concatenation with a literal head / tail against a literal: peel the literal part
+        if a.c is not None: a, b = b, a
+        if b.c is not None and is_app_of(a.t, 'sconcat'):
+            h = self.tostr(a.t.arg(0)); tl = self.tostr(a.t.arg(1))
+            if h.c is not None:
+                if not b.c.startswith(h.c): return False
+                return self.streq(tl, StrV(c=b.c[len(h.c):]))
+            if tl.c is not None:
+                if not b.c.endswith(tl.c): return False
+                return self.streq(h, StrV(c=b.c[:len(b.c) - len(tl.c)]))
         return self.sterm(a) == self.sterm(b)
     def strlen(self, a):
         if a.c is not None: return len(a.c)
@@ -225,20 +235,26 @@ class Engine:
         key = ('cc', t.get_id())
         if key not in self.P.axdone:
             self.ax(key, slen(t) == slen(ta) + slen(tb), z3.ULE(slen(ta), slen(t)), z3.ULE(slen(tb), slen(t)))
-            # cancellation instances: concatenations whose heads have the same known length are equal only part by part
+            # cancellation: a concatenation whose head has a known length determines its parts (inverse functions per head
+            # length: linear number of instances, equal concatenations are then equal part by part by congruence)
             kl = self.known_len(ta)
             if kl is not None:
-                lst = self.P.g.setdefault('concats', {}).setdefault(kl, [])
-                for (t2, a2, b2) in lst[-40:]:
-                    self.P.solver.add(z3.Implies(t == t2, z3.And(ta == a2, tb == b2)))
-                lst.append((t, ta, tb))
+                hd = z3.Function('chead_%d' % kl, Str, Str); tl = z3.Function('ctail_%d' % kl, Str, Str)
+                self.P.solver.add(hd(t) == ta, tl(t) == tb)
         return StrV(t=t)
     def ssub(self, a, lo, hi):
         """a[lo:hi]; bounds already checked by the caller"""
         cl, ch = self.conc(lo), self.conc(hi)
         if a.c is not None and cl is not None and ch is not None: return StrV(c=a.c[cl:ch])
         ta = self.sterm(a)
-        if cl == 0 and not isinstance(hi, int) and z3.simplify(hi).eq(z3.simplify(slen(ta))): return a
+        full = not isinstance(hi, int) and z3.simplify(hi).eq(z3.simplify(slen(ta)))
+        if cl == 0 and full: return a
+        if full and cl is not None and is_app_of(ta, 'sconcat'):      # suffix of a concatenation whose head has a known length
+            hl = self.known_len(ta.arg(0))
+            if hl is not None:
+                tail = self.tostr(ta.arg(1))
+                if cl <= hl: return self.sconcat(self.ssub(self.tostr(ta.arg(0)), cl, hl), tail)
+                return self.ssub(tail, cl - hl, self.strlen(tail))
         # prefix of a concatenation whose head has known length
         if cl is not None and ch is not None and is_app_of(ta, 'sconcat'):
             hl = self.known_len(ta.arg(0))
